@@ -163,7 +163,12 @@ def run_chain(mod, plans):
             rec = mod.execute(p)
         return {"violations": rec["violations"], "plan": rec["plan"], "text": rec.get("text"), "digest": rec["digest"], "log": rec.get("log")}
 
-    return fork_call(job)
+    rec = fork_call(job)
+    if len(plans) > 1 and getattr(mod, "needs_pristine_reference", lambda p_: False)(plans[-1].get("prop")):
+        # the last run once more, alone, in a process that has run nothing
+        ref = fork_call(lambda: mod.pristine_reference(plans[-1]))
+        mod.compare_pristine(rec, ref)
+    return rec
 
 
 def shrink_chain(mod, plans, sig, budget=60):
